@@ -87,6 +87,8 @@ def dead_job(job, why):
 
 
 def run_job(args):
+    import gc
+    gc.collect()
     job, th, budget = args
     t0 = time.time()
     out = {"job": job, "ok": False}
